@@ -657,3 +657,32 @@ func (w *world) aliased(k int, ev *wamp.Event) string {
 	}
 	return ""
 }
+
+// scribble overwrites the top-level containers of the EVENTs delivered to in-process clients.
+func (w *world) scribble(out map[int][]wamp.Message) {
+	for k, ms := range out {
+		c := w.clients[k]
+		if c == nil || !c.inproc {
+			continue
+		}
+		for _, m := range ms {
+			ev, ok := m.(*wamp.Event)
+			if !ok {
+				continue
+			}
+			if ev.Details != nil {
+				ev.Details["topic"] = wamp.URI("scribbled.by.recipient")
+				ev.Details["scribbled"] = true
+			}
+			for i := range ev.Arguments {
+				ev.Arguments[i] = "scribbled by recipient"
+			}
+			if ev.ArgumentsKw != nil {
+				for key := range ev.ArgumentsKw {
+					ev.ArgumentsKw[key] = "scribbled by recipient"
+				}
+				ev.ArgumentsKw["scribbled"] = true
+			}
+		}
+	}
+}
